@@ -5,6 +5,7 @@ package props
 import (
 	"context"
 	"fmt"
+	"sort"
 	"sync"
 	"sync/atomic"
 	"testing"
@@ -30,6 +31,10 @@ type C07Call struct {
 	P  int `json:"p"`  // program
 	Op int `json:"op"` // 0 Eval 1 TryEval 2 Dump 3 DumpTable 4 EvalBool
 	B  int `json:"b"`  // binding 0..5
+	// Ctx: how the call's own context is built: 0 the harness's instrumented fetcher, 1 the library's
+	// NewCtxFromVars over the binding's values, 2 NewCtxFromVars(conf, nil) filled with Ctx.Set
+	// afterwards (the start-empty-and-Set pattern of TryEval users); a failing fetch is an absent value.
+	Ctx int `json:"ctx,omitempty"`
 }
 
 type C07Case struct {
@@ -46,9 +51,10 @@ func genC07Calls(t *rapid.T, nprogs, lo, hi int) []C07Call {
 	out := make([]C07Call, n)
 	for i := range out {
 		out[i] = C07Call{
-			P:  rapid.IntRange(0, nprogs-1).Draw(t, "prog"),
-			Op: pickW(t, "op", 6, 4, 1, 1, 2),
-			B:  rapid.IntRange(0, c07Bindings-1).Draw(t, "bind"),
+			P:   rapid.IntRange(0, nprogs-1).Draw(t, "prog"),
+			Op:  pickW(t, "op", 6, 4, 1, 1, 2),
+			B:   rapid.IntRange(0, c07Bindings-1).Draw(t, "bind"),
+			Ctx: pickW(t, "ctx", 4, 1, 2),
 		}
 	}
 	return out
@@ -210,9 +216,57 @@ func (a c07Result) same(b c07Result) bool {
 	return SameOutcome(a.o, b.o)
 }
 
-func c07Do(e *eval.Expr, u *Universe, call C07Call) c07Result {
+// c07LibCtx builds the call's context with the library's own fetchers.
+func c07LibCtx(cc *eval.Config, mode int, vars map[string]interface{}, fail map[string]error, avail map[string]bool) *eval.Ctx {
+	vals := map[string]interface{}{}
+	for n, v := range vars {
+		if _, failing := fail[n]; !failing && (avail == nil || avail[n]) {
+			vals[n] = v
+		}
+	}
+	if mode == 1 {
+		return eval.NewCtxFromVars(cc, vals)
+	}
+	ctx := eval.NewCtxFromVars(cc, nil)
+	names := make([]string, 0, len(vals))
+	for n := range vals {
+		names = append(names, n)
+	}
+	sort.Strings(names)
+	for _, n := range names {
+		key, ok := cc.VariableKeyMap[n]
+		if !ok {
+			key = eval.UndefinedVarKey
+		}
+		_ = ctx.Set(key, n, vals[n])
+	}
+	return ctx
+}
+
+func c07Do(e *eval.Expr, cc *eval.Config, u *Universe, call C07Call) c07Result {
 	vars, fail, avail := c07Binding(u, call.B)
 	f := &Fetcher{Vars: vars, Fail: fail, Log: &Log{}}
+	if call.Ctx != 0 && (call.Op == 0 || call.Op == 1 || call.Op == 4) {
+		var ctx *eval.Ctx
+		if o := Safe(func() (eval.Value, error) {
+			if call.Op == 1 {
+				ctx = c07LibCtx(cc, call.Ctx, vars, fail, avail)
+			} else {
+				ctx = c07LibCtx(cc, call.Ctx, vars, fail, nil)
+			}
+			return nil, nil
+		}); o.Panic != nil {
+			return c07Result{o: o}
+		}
+		switch call.Op {
+		case 0:
+			return c07Result{o: Safe(func() (eval.Value, error) { return e.Eval(ctx) })}
+		case 1:
+			return c07Result{o: Safe(func() (eval.Value, error) { return e.TryEval(ctx) })}
+		default:
+			return c07Result{o: Safe(func() (eval.Value, error) { return e.EvalBool(ctx) })}
+		}
+	}
 	switch call.Op {
 	case 0:
 		return c07Result{o: Safe(func() (eval.Value, error) { return e.Eval(f.Ctx()) })}
@@ -283,19 +337,20 @@ func startConsumer(e *eval.Expr, kind int) (stop func()) {
 }
 
 func callName(c C07Call) string {
-	return fmt.Sprintf("%s(program %d, binding %d)", []string{"Eval", "TryEval", "Dump", "DumpTable", "EvalBool"}[c.Op], c.P, c.B)
+	return fmt.Sprintf("%s(program %d, binding %d, context %s)", []string{"Eval", "TryEval", "Dump", "DumpTable", "EvalBool"}[c.Op], c.P, c.B, []string{"instrumented fetcher", "NewCtxFromVars(values)", "NewCtxFromVars(nil)+Set"}[c.Ctx])
 }
 
 func checkC07(c C07Case, r *Rec) *Violation {
 	type prog struct {
 		e    *eval.Expr
+		cc   *eval.Config
 		u    *Universe
 		want map[C07Call]c07Result
 		snap progSnapshot
 		stop func()
 	}
 	progs := make([]*prog, len(c.Progs))
-	compile := func(p *C07Prog) (*eval.Expr, *Violation) {
+	compile := func(p *C07Prog) (*eval.Expr, *eval.Config, *Violation) {
 		cc, _ := NewConfig(&p.U, &Log{}, Build{Mask: p.Mask, Events: p.Events, Pure: true})
 		// c_re(x) = x, but the first time it runs in an evaluation it evaluates the very
 		// program it belongs to once more, on the same goroutine, with the same fetcher
@@ -313,10 +368,10 @@ func checkC07(c C07Case, r *Rec) *Violation {
 		}
 		e, co := SafeCompile(cc, m.Render(p.Tree))
 		if co.Panic != nil || co.Err != nil {
-			return nil, Violf("C07: compile failed: %v\nsrc=%s", co, m.Render(p.Tree))
+			return nil, nil, Violf("C07: compile failed: %v\nsrc=%s", co, m.Render(p.Tree))
 		}
 		self = e
-		return e, nil
+		return e, cc, nil
 	}
 	for i := range c.Progs {
 		p := &c.Progs[i]
@@ -333,7 +388,7 @@ func checkC07(c C07Case, r *Rec) *Violation {
 			if _, done := pr.want[call]; done {
 				continue
 			}
-			fresh, v := compile(p)
+			fresh, freshCC, v := compile(p)
 			if v != nil {
 				return v
 			}
@@ -341,7 +396,7 @@ func checkC07(c C07Case, r *Rec) *Violation {
 			if p.Events > 0 {
 				stop = startConsumer(fresh, 0)
 			}
-			pr.want[call] = c07Do(fresh, &p.U, call)
+			pr.want[call] = c07Do(fresh, freshCC, &p.U, call)
 			if stop != nil {
 				stop()
 			}
@@ -349,7 +404,7 @@ func checkC07(c C07Case, r *Rec) *Violation {
 				return Violf("C07: %s panics in isolation: %v\nsrc=%s", callName(call), pr.want[call].o, m.Render(p.Tree))
 			}
 			// cross-check the isolated Eval against the reference semantics
-			if call.Op == 0 {
+			if call.Op == 0 && call.Ctx == 0 {
 				vars, fail, _ := c07Binding(&p.U, call.B)
 				if dt, err := m.ReadDump(eval.Dump(fresh)); err == nil {
 					ref := &m.Env{Vars: vars, Fail: fail, Custom: customModel(), Fast: p.Mask&MaskFast != 0}
@@ -360,11 +415,11 @@ func checkC07(c C07Case, r *Rec) *Violation {
 				}
 			}
 		}
-		e, v := compile(p)
+		e, cc, v := compile(p)
 		if v != nil {
 			return v
 		}
-		pr.e = e
+		pr.e, pr.cc = e, cc
 		pr.snap = snapshotProgram(e)
 		if p.Events > 0 {
 			pr.stop = startConsumer(e, c.Consumer)
@@ -398,7 +453,7 @@ func checkC07(c C07Case, r *Rec) *Violation {
 	failures := 0
 	for k, call := range c.Seq {
 		p := progs[call.P]
-		got := c07Do(p.e, p.u, call)
+		got := c07Do(p.e, p.cc, p.u, call)
 		if got.o.Err != nil {
 			failures++
 		}
@@ -426,7 +481,7 @@ func checkC07(c C07Case, r *Rec) *Violation {
 			<-start
 			for k, call := range calls {
 				p := progs[call.P]
-				got := c07Do(p.e, p.u, call)
+				got := c07Do(p.e, p.cc, p.u, call)
 				if k == 0 {
 					atomic.AddInt32(&firstCalls, 1)
 				}
@@ -459,6 +514,15 @@ func checkC07(c C07Case, r *Rec) *Violation {
 	} else {
 		r.Class(fmt.Sprintf("goroutines:%02d", len(c.Par)))
 	}
+	libCtx := false
+	for _, call := range c.Seq {
+		if call.Ctx != 0 {
+			libCtx = true
+		}
+	}
+	if libCtx {
+		r.Class("library-fetcher-contexts-in-history")
+	}
 	anyEvents := false
 	for _, p := range c.Progs {
 		if p.Events > 0 {
@@ -478,7 +542,7 @@ func checkC07(c C07Case, r *Rec) *Violation {
 
 var propC07 = Prop[C07Case]{
 	ID:       "C07",
-	Rule:     "histories over 1..3 shared compiled programs (typed random tree x optimization subset x {no events, ReportEvent, Debug}), 6 bindings each (three of them with an additional failing fetch, so successes and failures mix): a sequential part of 10..60 calls (Eval, TryEval, Dump, DumpTable, EvalBool) and a concurrent part of 2..8 (16 thorough) goroutines x 10..50 (200) calls started behind one barrier, each call with its own context; event consumer prompt / buffered / slow. Oracles: every call returns what the same call returns on a freshly compiled unshared program (itself cross-checked against R when unoptimized); the flat program read through the read-only hook (flags, child counts, jump indexes, stack slots, keys, values, operator identities, parent table, stack bound) is identical before and after; the test binary runs under the Go race detector (halt on first report; the case is written to disk before it runs). Non-trivial = at least two goroutines had completed a call when the first goroutine finished (measured) and the sequential history mixes failing and succeeding calls; distinct by the whole history",
+	Rule:     "histories over 1..3 shared compiled programs (typed random tree x optimization subset x {no events, ReportEvent, Debug}), 6 bindings each (three of them with an additional failing fetch, so successes and failures mix): a sequential part of 10..60 calls (Eval, TryEval, Dump, DumpTable, EvalBool) and a concurrent part of 2..8 (16 thorough) goroutines x 10..50 (200) calls started behind one barrier, each call with its own context (the harness's instrumented fetcher, the library's NewCtxFromVars over the values, or an empty NewCtxFromVars context filled with Ctx.Set); event consumer prompt / buffered / slow. Oracles: every call returns what the same call returns on a freshly compiled unshared program (itself cross-checked against R when unoptimized); the flat program read through the read-only hook (flags, child counts, jump indexes, stack slots, keys, values, operator identities, parent table, stack bound) is identical before and after; the test binary runs under the Go race detector (halt on first report; the case is written to disk before it runs). Non-trivial = at least two goroutines had completed a call when the first goroutine finished (measured) and the sequential history mixes failing and succeeding calls; distinct by the whole history",
 	Gen:      genC07,
 	Check:    checkC07,
 	PreWrite: true,
